@@ -440,3 +440,109 @@ func isConstString(v ssa.Value) *ssa.Const {
 	}
 	return nil
 }
+
+func init() {
+	scans["reader-delegates"] = scanReaderDelegates
+}
+
+// scanReaderDelegates: the Reader methods whose interface contract is verified on a shared helper
+// (skipSpacesReader, ...) are, in both implementations, exactly `return helper(r, args...)`: one static call
+// of the helper with the receiver (as a Reader) and the parameters in order, whose results are returned.
+func scanReaderDelegates(P *Program) []*Obl {
+	pairs := map[string]string{"SkipSpaces": "skipSpacesReader", "SkipBlankLines": "skipBlankLinesReader"}
+	var out []*Obl
+	for _, typ := range []string{"reader", "blockReader"} {
+		for _, m := range []string{"SkipBlankLines", "SkipSpaces"} {
+			name := "reader-delegates:(*" + typ + ")." + m
+			fn := P.funcs[modPath+"/text::(*"+typ+")."+m]
+			if fn == nil {
+				out = append(out, scanObl(name, false, "method not found"))
+				continue
+			}
+			ok, why := delegatesTo(fn, pairs[m])
+			out = append(out, scanObl(name, ok, why))
+		}
+	}
+	return out
+}
+
+func delegatesTo(fn *ssa.Function, helper string) (bool, string) {
+	var call *ssa.Call
+	for _, b := range fn.Blocks {
+		for _, in := range b.Instrs {
+			switch x := in.(type) {
+			case *ssa.Call:
+				if _, isBuiltin := x.Common().Value.(*ssa.Builtin); isBuiltin {
+					continue
+				}
+				if call != nil {
+					return false, "more than one call"
+				}
+				call = x
+			case *ssa.Store:
+				if a, ok := x.Addr.(*ssa.Alloc); !ok || !allocIsVariable(a) {
+					return false, "stores to the heap"
+				}
+			case *ssa.If, *ssa.Go, *ssa.Defer, *ssa.MapUpdate, *ssa.Panic:
+				return false, fmt.Sprintf("contains %T", in)
+			}
+		}
+	}
+	if call == nil {
+		return false, "no call"
+	}
+	callee, ok := call.Common().Value.(*ssa.Function)
+	if !ok || call.Common().IsInvoke() || callee.Name() != helper || callee.Pkg != fn.Pkg {
+		return false, "does not call " + helper
+	}
+	args := call.Common().Args
+	if len(args) != len(fn.Params) {
+		return false, "argument count"
+	}
+	for i, a := range args {
+		v := a
+		if mi, ok := v.(*ssa.MakeInterface); ok && i == 0 {
+			v = mi.X
+		}
+		if !isParamLoad(v, fn.Params[i].Name()) && v != ssa.Value(fn.Params[i]) {
+			return false, fmt.Sprintf("argument %d is not parameter %s", i, fn.Params[i].Name())
+		}
+	}
+	for _, b := range fn.Blocks {
+		for _, in := range b.Instrs {
+			r, ok := in.(*ssa.Return)
+			if !ok {
+				continue
+			}
+			for k, res := range r.Results {
+				// NaiveForm: a result passes through a result variable that is stored exactly once
+				if ld, ok := res.(*ssa.UnOp); ok {
+					if a, ok := ld.X.(*ssa.Alloc); ok && allocIsVariable(a) {
+						var st *ssa.Store
+						n := 0
+						for _, ref := range *a.Referrers() {
+							if s, ok := ref.(*ssa.Store); ok && s.Addr == a {
+								st = s
+								n++
+							}
+						}
+						if n == 1 {
+							res = st.Val
+						}
+					}
+				}
+				if ex, ok := res.(*ssa.Extract); ok && ex.Tuple == ssa.Value(call) && ex.Index == k {
+					continue
+				}
+				if res == ssa.Value(call) && len(r.Results) == 1 {
+					continue
+				}
+				// NaiveForm: results may pass through result variables
+				if !flowsFrom(res, call) {
+					return false, "returns something other than the helper's results"
+				}
+			}
+		}
+	}
+	return true, ""
+}
